@@ -30,6 +30,19 @@ claim("C11","exploration","runtime monitor: model-rendered documents with positi
  "Documents are drawn from the full grammar in my own IDL model and rendered with randomised layout while recording each node's first-token line/column; the real parser's tree (structure, names, literal values, docstrings, positions via ast.Pos/Info.Pos) must equal the model, ast.Walk must visit exactly the tree in order with true parents, and random/token-mutated byte strings must yield exactly one of (program, non-empty positioned error list) without panicking. Two position defects that cannot be repaired without regenerating the scanner/parser are open findings, matched by signature only.",
  "the printer's bookkeeping defines 'true position'; docstring text is asserted only for unambiguous shapes", "DESIGN.md §5 C11")
 
+claim("C07","exploration","runtime monitor: model-resolver oracle over generated multi-file programs; link orders made an explicit enumerated input through a tagged hook; natural map-order repetition",
+ "Valid program sets are generated in my own IDL model (which knows every binding, typedef root and cast constant), compiled by the real compiler under natural map order, under enumerated/forced link orders (all n! per module list when n<=6) and under definition permutations; the canonical dump of the compiled module graph must equal the model's each time, shared definitions must be one object, and planted invalid programs must be rejected under every order. One order-dependent acceptance defect is an open finding kept alive by a probe; its input class is switched off in the main stream.",
+ "the model resolver is the statement of Thrift scoping; hook orders are a subset of what Compile can do", "DESIGN.md §5 C07")
+claim("C08","exploration","runtime monitor: process-level crash/hang monitoring of compile+generate over hostile file sets (every cycle kind x length, token mutations, random bytes)",
+ "Each hostile file set is compiled (strict and non-strict) and, if accepted, generated in a child process; a panic is caught and reported with its stack, a fatal stack overflow or hang kills the child and the runner isolates the killing case in a fresh process. Every run must end with a module/output or an error.",
+ "termination decided by watchdog + reproduction; nesting depth <= 250", "DESIGN.md §5 C08")
+claim("C09","exploration","runtime monitor: numeric-rule oracle over an enumerated grid (boundary literal x numeric position x strictness)",
+ "Every boundary literal is placed at every numeric position (field ids, enum values, integer constants/defaults of every width, enum-by-number, bool/double from integers); the model's range rules say accept or reject, and an accepted program's compiled numbers must equal the literals written.",
+ "the statement's numeric rules are the oracle; id 0 left open", "DESIGN.md §5 C09")
+claim("C10","exploration","runtime monitor: output-equality oracle (sha256 of every generated file and of the canonically relabelled plugin request) across in-process repetitions, forced link orders and separate processes",
+ "Each program is generated repeatedly in one process, under forced link orders and again in separate processes; path sets, file contents, success/failure and the plugin request (up to id renumbering) must be identical.",
+ "map-order nondeterminism is sampled, not enumerated, except link orders", "DESIGN.md §5 C10")
+
 NOT_IMPL = "check not implemented yet in this round (statement about the machinery, not the technique)"
 
 def main():
